@@ -820,3 +820,87 @@ def cli_reuse_problems(fmt, glyphs, tolerances, result):
         if mm:
             bad.append((tol, "picture differs from the source", mm[:2]))
     return bad
+
+
+# ---- C20 through the real command line: options by flag and by TOML file ----
+
+
+def gen_cli_options(rng, i=None):
+    a = gen_options(rng)
+    o = a["overrides"]
+    if o["color_format"] == "cff_colr_1":
+        o["color_format"], o["output_file"] = "glyf_colr_1", "o.ttf"
+    o["output_file"] = rng.choice(["o.ttf", "My Font.ttf"])
+    a["glyphs"] = a["glyphs"][:2]
+    for k, g in enumerate(a["glyphs"]):
+        g.codepoints = (0x1F600 + k,)
+    names = sorted(k for k in o if k != "output_file")
+    # which options travel by flag, which in the TOML file; a few in BOTH, with another value
+    # in the file (the flag must win)
+    by_flag = set(rng.sample(names, rng.randint(0, len(names))))
+    both = set(rng.sample(sorted(by_flag), min(len(by_flag), rng.randint(0, 3))))
+    return {"glyphs": a["glyphs"], "overrides": o, "by_flag": sorted(by_flag), "both": sorted(both)}
+
+
+_OTHER = dict(family="Other Family", upem=512, ascender=444, descender=-111, linegap=77, width=321, version_major=42, version_minor=7, keep_glyph_names=None, clipbox_quantization=3, color_format="glyf", transform=None)
+
+
+def run_cli_options(glyphs, overrides, by_flag, both):
+    from fontTools import ttLib
+
+    def toml_value(k, v):
+        if k == "transform":
+            return '"' + v.tostring() + '"'
+        if isinstance(v, bool):
+            return str(v).lower()
+        if isinstance(v, str):
+            return '"' + v + '"'
+        return str(v)
+
+    src = next((p_ for p_ in sys.path if p_.endswith("/src") and os.path.isdir(os.path.join(p_, "nanoemoji"))), "/repo/src")
+    with tempfile.TemporaryDirectory(prefix="verif_cli_") as d:
+        files = []
+        for g in glyphs:
+            p = os.path.join(d, "emoji_u%x.svg" % g.codepoints[0])
+            open(p, "w").write(e2e.svg_text(g))
+            files.append(os.path.basename(p))
+        lines, flags = [], []
+        for k, v in overrides.items():
+            in_file = k not in by_flag or k in both
+            if k in by_flag:
+                if v is None:
+                    continue  # an option that is not given (clipbox_quantization: default)
+                if isinstance(v, bool):
+                    flags.append(("--" if v else "--no") + k)
+                elif k == "transform":
+                    flags.append(f"--{k}={v.tostring()}")
+                else:
+                    flags.append(f"--{k}={v}")
+            if in_file:
+                fv = v
+                if k in both:
+                    fv = _OTHER.get(k)
+                    if k == "keep_glyph_names":
+                        fv = not v
+                    if k == "transform" or fv is None:
+                        continue
+                if fv is None:
+                    continue
+                lines.append(f"{k} = {toml_value(k, fv)}")
+        lines += ["[axis.wght]", 'name = "Weight"', "default = 400", "[master.regular]", 'style_name = "Regular"', "srcs = [" + ", ".join(f'"{f}"' for f in files) + "]", "[master.regular.position]", "wght = 400"]
+        open(os.path.join(d, "c.toml"), "w").write("\n".join(lines) + "\n")
+        env = dict(os.environ, PYTHONPATH=src, PATH="/venv/bin:" + os.environ.get("PATH", ""))
+        cmd = [sys.executable, "-m", "nanoemoji.nanoemoji", "--build_dir", os.path.join(d, "b")] + flags + ["c.toml"]
+        r = subprocess.run(cmd, cwd=d, env=env, capture_output=True, text=True, timeout=900)
+        fp = os.path.join(d, "b", overrides["output_file"])
+        font = None
+        if r.returncode == 0 and os.path.exists(fp):
+            font = ttLib.TTFont(io.BytesIO(open(fp, "rb").read()), lazy=False)
+        return {"exit": r.returncode, "font": font, "cfg": None, "stderr": (r.stdout + r.stderr)[-800:], "written": sorted(os.listdir(os.path.join(d, "b"))) if os.path.isdir(os.path.join(d, "b")) else []}
+
+
+def cli_option_problems(glyphs, overrides, by_flag, both, result):
+    if result["exit"] != 0 or result["font"] is None:
+        return [("the command failed or wrote no font under the requested name", result["stderr"][-300:], result["written"])]
+    glyphs2 = glyphs if overrides["keep_glyph_names"] else []
+    return option_problems(glyphs2, overrides, result)
